@@ -16,7 +16,7 @@ from ..core import META, Ctx, RuleResult, rule
 from ..model import AnalysisError, Func, norm_stmt, parent
 from ..pattern import C, G, V, call, match, norm
 from ..terms import Term, alts, contains, ends_with_attrs, root_of, show, subterms
-from ..util import calls_in, deep_subterms, nodes_in
+from ..util import bool_nnf, calls_in, deep_subterms, nodes_in, path_condition
 
 P = "C12"
 UTILS = "ropt.plugins.plan._utils"
@@ -30,6 +30,16 @@ META[P] = {
     ),
     "not_decided": ["tie-breaking among equal objectives beyond strictness of the comparison"],
 }
+
+
+def _opaque(ctx: Ctx) -> set[str]:
+    try:
+        return {feasibility_fn(ctx).qualname}
+    except AnalysisError:
+        return set()
+
+
+META[P]["opaque"] = _opaque
 
 
 def better_compares(ctx: Ctx):
@@ -218,6 +228,16 @@ def c12_3(ctx: Ctx) -> RuleResult:
     return res
 
 
+def _conj_literals(ctx: Ctx, f: Func, stmt: ast.AST, extra=()):
+    """Literals (atom, polarity) that hold when ``stmt`` executes: its path condition (enclosing
+    tests, negated early exits, helpers seen through) in negation normal form, top-level conjuncts."""
+    pc = list(path_condition(ctx, f, stmt)) + list(extra)
+    if not pc:
+        return []
+    g_ = bool_nnf(("bool", "and", tuple(c if p else ("unary", "not", c) for c, p in pc)))
+    return [(it[1], it[2]) for it in (g_[1] if g_[0] == "and" else [g_]) if it[0] == "lit"]
+
+
 @rule(P)
 def c12_4(ctx: Ctx) -> RuleResult:
     res = RuleResult("C12.4", "DOM", "the tracker changes its value only for FINISHED_EVALUATION events of its tracked sources")
@@ -230,21 +250,13 @@ def c12_4(ctx: Ctx) -> RuleResult:
     if not stores:
         raise AnalysisError("tracker never stores a result")
     for st in stores:
-        conds = []
-        cur = parent(st)
-        child = st
-        while cur is not None and cur is not h.node:
-            if isinstance(cur, ast.If) and any(child is s for s in cur.body):
-                conds.append(X.value_at(h, cur.test))
-            child, cur = cur, parent(cur)
-        flat = []
-        for cnd in conds:
-            flat += list(cnd[2]) if cnd[0] == "bool" and cnd[1] == "and" else [cnd]
-        ev_ok = any(d[0] == "cmp" and d[1] == "==" and ("global", "ropt.enums.EventType.FINISHED_EVALUATION") in (d[2], d[3]) for d in flat)
-        src_ok = any(d[0] == "cmp" and d[1] == "in" and d[2][0] == "attr" and d[2][2] == "source" and d[3][0] == "attr" and "sources" in d[3][2] for d in flat)
+        flat = _conj_literals(ctx, h, st)
+        FIN = ("global", "ropt.enums.EventType.FINISHED_EVALUATION")
+        ev_ok = any(p and d[0] == "cmp" and d[1] == "==" and FIN in (d[2], d[3]) for d, p in flat)
+        src_ok = any(p and d[0] == "cmp" and d[1] == "in" and d[2][0] == "attr" and d[2][2] == "source" and d[3][0] == "attr" and "sources" in d[3][2] for d, p in flat)
         res.add(h, st, "the store is control-dependent on `event_type == FINISHED_EVALUATION`", ev_ok, "" if ev_ok else "other event types can change the tracked result", construct="tracker: event type filter")
         res.add(h, st, "the store is control-dependent on `event.source in self._sources`", src_ok, "" if src_ok else "results of untracked sources can displace the tracked result", construct="tracker: source filter")
-        nn = any(d[0] == "cmp" and d[1] == "is not" and d[3] == C(None) for d in flat)
+        nn = any((not p) and d[0] == "cmp" and d[1] == "is" and d[3] == C(None) for d, p in flat)
         res.add(h, st, "only a selected (non-None) result replaces the stored one", nn, "" if nn else "None can overwrite a valid result", construct="tracker: non-None store")
     # the store handler filters alike
     st_cls = ctx.repo.classes.get("ropt.plugins.plan._store.DefaultStoreHandler")
@@ -257,54 +269,120 @@ def c12_4(ctx: Ctx) -> RuleResult:
     return res
 
 
+def feasibility_fn(ctx: Ctx) -> Func:
+    ci = ctx.repo.cls("ropt.results._constraint_info.ConstraintInfo")
+    vfields = sorted(n for n in ci.fields if n.endswith("_violation"))
+    for g in ctx.repo.funcs_in(UTILS):
+        if "tolerance" in g.params and any(v in ast.unparse(g.node) for v in vfields):
+            return g
+    raise AnalysisError("feasibility test not found")
+
+
+def selectors(ctx: Ctx) -> list[Func]:
+    """The functions of the tracker utilities that the tracker calls with the event's result lists."""
+    trk = ctx.repo.cls(TRACKER)
+    out = []
+    for m in trk.methods.values():
+        for _c, cs, _k in ctx.cg.all_callees(m):
+            for g in cs:
+                if g.cls is None and g.module.name == UTILS and g not in out and len(g.positional) >= 2:
+                    out.append(g)
+    if len(out) < 2:
+        raise AnalysisError("best/last selectors (tracker utility functions called by the tracker) not found")
+    return out
+
+
+def acceptance_sites(ctx: Ctx, f: Func):
+    """[(node, literals, iteration term, takes_first)]: places where an item of the scanned result
+    lists is accepted (flows into the returned value), with the conditions that hold there."""
+    X = ctx.X
+    seqs = {("param", f.qualname, p) for p in f.positional}
+    out = []
+    for n in ast.walk(f.node):
+        if isinstance(n, (ast.GeneratorExp, ast.ListComp)) and n.generators:
+            g0 = n.generators[0]
+            it = X.at(f, g0.iter)
+            if not any(s_ in seqs for s_ in subterms(it)):
+                continue
+            conds = [(X.value_at(f, c_), True) for g_ in n.generators for c_ in g_.ifs]
+            stmt = n
+            while parent(stmt) is not None and not isinstance(stmt, ast.stmt):
+                stmt = parent(stmt)
+            par = parent(n)
+            first = isinstance(par, ast.Call) and isinstance(par.func, ast.Name) and par.func.id == "next"
+            out.append((n, _conj_literals(ctx, f, stmt, conds), it, first))
+        elif isinstance(n, ast.For):
+            it = X.at(f, n.iter)
+            if not any(s_ in seqs for s_ in subterms(it)):
+                continue
+            names = {x.id for x in ast.walk(n.target) if isinstance(x, ast.Name)}
+            for st in [x for b in n.body for x in ast.walk(b) if isinstance(x, (ast.Return, ast.Assign))]:
+                val = st.value
+                if val is None or not any(isinstance(x, ast.Name) and x.id in names for x in ast.walk(val)):
+                    continue
+                out.append((st, _conj_literals(ctx, f, st), it, isinstance(st, ast.Return)))
+    return out
+
+
 @rule(P)
 def c12_5(ctx: Ctx) -> RuleResult:
     res = RuleResult("C12.5", "COH", "best and last accept a result iff it is a FunctionResults with functions present and feasible; last takes the most recent one")
     X = ctx.X
-    sels = []
-    for f in ctx.repo.funcs_in(UTILS):
-        if f.cls is None and {"results", "transformed_results"} <= set(f.params):
-            sels.append(f)
-    if len(sels) < 2:
-        raise AnalysisError("best/last selectors not found")
-
-    def predicate(f: Func):
-        out = set()
-        for n in ast.walk(f.node):
-            if isinstance(n, ast.BoolOp) and isinstance(n.op, ast.And):
-                txt = ast.unparse(n)
-                if "isinstance" in txt and "FunctionResults" in txt:
-                    out.add("is FunctionResults")
-                if ".functions is not None" in txt:
-                    out.add("functions present")
-                if "not _violates_constraint" in txt or "not " in txt and "violates" in txt:
-                    out.add("feasible")
-        return out
-
-    want = {"is FunctionResults", "functions present", "feasible"}
+    sels = selectors(ctx)
+    feas = feasibility_fn(ctx)
+    cmp_funcs = {f_ for f_, _n, _t in better_compares(ctx)}
+    kinds = {}
     for f in sels:
-        p = predicate(f)
-        ok = p == want
-        res.add(f, f.node, "admissible iff FunctionResults, functions is not None, not violating", ok, "" if ok else f"predicate has only {sorted(p)}", construct=f"{f.name}: admissibility")
-    last = [f for f in sels if "last" in f.name]
-    for f in last:
-        txt = ast.unparse(f.node)
-        ok = txt.count("reversed(") >= 2 and "next(" in txt
-        res.add(f, f.node, "`last` scans results and transformed results in reverse and takes the first admissible one", ok, "" if ok else "not the most recent admissible result", construct=f"{f.name}: reversed scan")
-    best = [f for f in sels if f not in last]
-    for f in best:
-        # the running optimum is updated inside the loop so that several results of one event are compared with each other
-        ok = any(isinstance(n, ast.Assign) and any(isinstance(t, ast.Name) and t.id == f.positional[0] for t in n.targets) for lp in nodes_in(f, ast.For) for n in ast.walk(lp))
-        res.add(f, f.node, "`best` carries the running optimum through the results of one event", ok, "" if ok else "several results of one event are each compared with the old optimum only", construct=f"{f.name}: running optimum")
-        cmps = better_compares(ctx)
-        ok = all(t[1] == "<" for _f, _n, t in [(a, b, norm(c)) for a, b, c in cmps])
-        res.add(f, f.node, "a candidate replaces the incumbent only if strictly better", ok, "" if ok else "non-strict comparison: a later equal result displaces an earlier one", construct=f"{f.name}: strict comparison")
-    # the tracker dispatches best/last to these selectors
+        reach = ctx.cg.reachable([f], include_nested_values=False)
+        kinds[f.qualname] = "best" if any(g in reach for g in cmp_funcs) else "last"
+        sites = acceptance_sites(ctx, f)
+        if not sites:
+            res.add(f, f.node, "admissible iff FunctionResults, functions is not None, not violating", False, "no place where an item of the result lists is accepted was found", construct=f"{f.name}: admissibility")
+            continue
+        missing = set()
+        for node, lits, _it, _first in sites:
+            k1 = any(p and a[0] == "call" and a[1] == ("builtin", "isinstance") and len(a[2]) == 2 and contains(a[2][1], lambda y: y[0] == "global" and y[1].endswith("FunctionResults")) for a, p in lits)
+            k2 = any((not p) and a[0] == "cmp" and a[1] == "is" and a[3] == C(None) and a[2][0] == "attr" and a[2][2] == "functions" for a, p in lits)
+            k3 = any((not p) and a[0] == "call" and feas in ctx.cg.resolve_fn(a[1], f) for a, p in lits)
+            if not k1:
+                missing.add("is FunctionResults")
+            if not k2:
+                missing.add("functions present")
+            if not k3:
+                missing.add("feasible")
+        ok = not missing
+        res.add(f, sites[0][0], "admissible iff FunctionResults, functions is not None, not violating", ok,
+                "" if ok else f"an item is accepted without the test(s) {sorted(missing)}", construct=f"{f.name}: admissibility")
+        if kinds[f.qualname] == "last":
+            ok = True
+            why = ""
+            for node, _lits, it, first in sites:
+                revs = [s_ for s_ in subterms(it) if (s_[0] == "call" and s_[1] == ("builtin", "reversed")) or (s_[0] == "sub" and s_[2][0] == "slice" and norm(s_[2][3]) == C(-1))]
+                covered = {p_ for r_ in revs for p_ in subterms(r_) if p_[0] == "param"}
+                scanned = {p_ for p_ in subterms(it) if p_[0] == "param" and p_[1] == f.qualname and p_[2] in f.positional}
+                if not revs or not scanned <= covered:
+                    ok, why = False, "the result lists are not scanned from the most recent item backwards (both lists alike)"
+                elif not first:
+                    ok, why = False, "the scan does not stop at the first admissible item"
+            res.add(f, sites[0][0], "`last` scans results and transformed results in reverse and takes the first admissible one", ok, why or "", construct=f"{f.name}: reversed scan")
+        else:
+            # the running optimum is updated inside the loop so that several results of one event are compared with each other
+            ok = False
+            for lp in nodes_in(f, ast.For):
+                for call_ in [x for b in lp.body for x in ast.walk(b) if isinstance(x, ast.Call)]:
+                    if not any(g in cmp_funcs for g in ctx.cg.callees_of_call(f, call_)) or not call_.args or not isinstance(call_.args[0], ast.Name):
+                        continue
+                    inc = call_.args[0].id
+                    if any(isinstance(n, ast.Assign) and any(isinstance(t, ast.Name) and t.id == inc for t in n.targets) for b in lp.body for n in ast.walk(b)):
+                        ok = True
+            res.add(f, f.node, "`best` carries the running optimum through the results of one event", ok, "" if ok else "several results of one event are each compared with the old optimum only", construct=f"{f.name}: running optimum")
+            cmps = better_compares(ctx)
+            ok = all(t[1] == "<" for _f, _n, t in [(a, b, norm(c)) for a, b, c in cmps])
+            res.add(f, f.node, "a candidate replaces the incumbent only if strictly better", ok, "" if ok else "non-strict comparison: a later equal result displaces an earlier one", construct=f"{f.name}: strict comparison")
     c = ctx.repo.cls(TRACKER)
     h = c.methods["handle_event"]
-    called = {g.name for cl in calls_in(h) for g in ctx.cg.callees_of_call(h, cl)}
-    ok = {f.name for f in sels} <= called
-    res.add(h, h.node, "the tracker uses these selectors for 'best' and 'last'", ok, "" if ok else f"tracker calls {sorted(called)}", construct="tracker: dispatch")
+    ok = set(kinds.values()) == {"best", "last"}
+    res.add(h, h.node, "the tracker uses these selectors for 'best' and 'last'", ok, "" if ok else f"tracker selectors: {kinds}", construct="tracker: dispatch")
     res.floor = 5
     return res
 
